@@ -427,6 +427,15 @@ Mutate ==
                /\ \E j \in 1..Len(r.live) : r.live[j].id \notin usedb \cup {r.a}
                /\ LET other == r.live[CHOOSE j \in 1..Len(r.live) : r.live[j].id \notin usedb \cup {r.a}].id IN
                   mut' = MutRec(d, k, "shadow-binder", "C05", [r EXCEPT !.a = other])
+         \/ /\ r.r = "cut"     \* ... and the shadowed channel's own use (a later wait) disappears: the new channel simply takes over the name
+            /\ LET b == r.aux[1]
+                   usedb == {b.a, b.b, b.c} \cup {b.args[j] : j \in 1..Len(b.args)}
+                   dpre == done[d].pre
+                   cand == {j \in (k + 1)..Len(dpre) : dpre[j].r = "1L" /\ dpre[j].a \notin usedb \cup {r.a} /\ dpre[j].a \notin TopSet
+                                                        /\ \E i \in 1..Len(r.live) : r.live[i].id = dpre[j].a} IN
+               /\ cand # {}
+               /\ LET j == CHOOSE j \in cand : \A j2 \in cand : j <= j2 IN
+                  mut' = MutRec(d, k, "shadow-binder", "C05", [r EXCEPT !.a = dpre[j].a]) @@ [skip |-> j]
          \/ /\ k = 1 /\ done[d].kind = "prc" /\ ~Contr(Md(done[d].t))   \* a second provider name duplicates a non-contractable process
             /\ mut' = MutRec(d, 0, "multi-name", "C05", [names |-> done[d].names \o <<"e">>])
          \/ /\ k = 1 /\ Hd(IF done[d].kind = "prc" THEN done[d].t ELSE done[d].sig.ret).k = "unit"   \* the provider's mode is raised above a channel it uses
